@@ -100,6 +100,13 @@ class DictV:
         self.items, self.owner = dict(items), owner
 
 
+class MaskedV:
+    """a[mask] for a 1-D array and a boolean mask of the same length: the selected sub-sequence, kept symbolic (A-NP-MASK)."""
+
+    def __init__(self, arr, mask):
+        self.arr, self.mask = arr, mask      # ARef (values), ARef (bool)
+
+
 class FuncV:
     """Callable model: fn(ex, st, args, kwargs, node) -> value."""
 
@@ -297,6 +304,11 @@ class Exec:
 
     def safe(self, st, what, cond, node):
         line = getattr(node, "lineno", 0)
+        ctx = getattr(self, "_elem_ctx", None)
+        if ctx:
+            # safety condition of an element-wise operation: it must hold for every index of the array(s)
+            vs, rng = ctx
+            cond = z3.ForAll(list(vs), z3.Implies(rng, lit(cond)))
         self.add_obl(f"safe[{what}@{line}]", "safe", st, cond, line)
         # after the check the condition may be assumed on this path (it would have raised otherwise)
         if not self.spec_mode:
@@ -377,6 +389,8 @@ class Exec:
         if z3.is_false(c):
             return self.ev(e.orelse, st)
         a, b = self.ev(e.body, st), self.ev(e.orelse, st)
+        if isinstance(a, StrV) and isinstance(b, StrV):
+            return a if a.s == b.s else StrV("<str>")
         if is_z3(lit(a)) and is_z3(lit(b)):
             a, b = coerce(a, b)
             return z3.If(c, a, b)
@@ -497,14 +511,22 @@ class Exec:
             return "int"
         return "real"
 
+    def _elementwise(self, vs, shape, thunk):
+        saved = getattr(self, "_elem_ctx", None)
+        self._elem_ctx = (vs, z3.And(*[z3.And(v >= 0, v < n) for v, n in zip(vs, shape)]))
+        try:
+            return thunk()
+        finally:
+            self._elem_ctx = saved
+
     def map1(self, st, ref, f, elem=None):
         d = self.arr(st, ref)
         if d.rank == 1:
             i = z3.Int("i!m")
-            body = lit(f(self.sel1(d, i)))
+            body = lit(self._elementwise([i], d.shape, lambda: f(self.sel1(d, i))))
             return self.alloc_arr(st, d.shape, z3.Lambda([i], body), elem or self.elem_kind(body))
         i, j = z3.Ints("i!m j!m")
-        body = lit(f(self.sel2(d, i, j)))
+        body = lit(self._elementwise([i, j], d.shape, lambda: f(self.sel2(d, i, j))))
         return self.alloc_arr(st, d.shape, L2(i, j, body), elem or self.elem_kind(body))
 
     def map2(self, st, a, b, f, node=None, elem=None):
@@ -519,10 +541,10 @@ class Exec:
                 shape = da.shape
                 if da.rank == 1:
                     i = z3.Int("i!m")
-                    body = lit(f(self.sel1(da, i), self.sel1(db, i)))
+                    body = lit(self._elementwise([i], shape, lambda: f(self.sel1(da, i), self.sel1(db, i))))
                     return self.alloc_arr(st, shape, z3.Lambda([i], body), elem or self.elem_kind(body))
                 i, j = z3.Ints("i!m j!m")
-                body = lit(f(self.sel2(da, i, j), self.sel2(db, i, j)))
+                body = lit(self._elementwise([i, j], shape, lambda: f(self.sel2(da, i, j), self.sel2(db, i, j))))
                 return self.alloc_arr(st, shape, L2(i, j, body), elem or self.elem_kind(body))
             raise Undecided("broadcasting between arrays of different rank")
         d = da if da is not None else db
@@ -533,11 +555,11 @@ class Exec:
         if d.rank == 1:
             i = z3.Int("i!m")
             x = self.sel1(d, i)
-            body = lit(f(x, sc) if da is not None else f(sc, x))
+            body = lit(self._elementwise([i], d.shape, lambda: f(x, sc) if da is not None else f(sc, x)))
             return self.alloc_arr(st, d.shape, z3.Lambda([i], body), elem or self.elem_kind(body))
         i, j = z3.Ints("i!m j!m")
         x = self.sel2(d, i, j)
-        body = lit(f(x, sc) if da is not None else f(sc, x))
+        body = lit(self._elementwise([i, j], d.shape, lambda: f(x, sc) if da is not None else f(sc, x)))
         return self.alloc_arr(st, d.shape, L2(i, j, body), elem or self.elem_kind(body))
 
     def scalar_binop(self, op, a, b, st, node):
@@ -612,6 +634,8 @@ class Exec:
         if isinstance(op, (ast.Is, ast.IsNot)):
             r = self.identical(a, b)
             return r if isinstance(op, ast.Is) else z3.Not(r)
+        if isinstance(a, MaskedV) and not isinstance(b, (ARef, MaskedV)):
+            return MaskedV(self.map2(st, a.arr, b, lambda x, y: self.scalar_cmp(op, x, y), node, elem="bool"), a.mask)
         if isinstance(a, ARef) or isinstance(b, ARef):
             return self.map2(st, a, b, lambda x, y: self.scalar_cmp(op, x, y), node, elem="bool")
         if isinstance(a, (NoneV, StrV, Tup)) or isinstance(b, (NoneV, StrV, Tup)):
@@ -1184,12 +1208,112 @@ class Exec:
         body = z3.If(r == rr, elem_at(val, c), self.sel2(d, r, c))
         self.write_arr(st, ref, ArrData(d.shape, L2(r, c, body), d.elem, d.owner, d.view_of), node)
 
+    def _mergeable(self, stmts):
+        for x in stmts:
+            if isinstance(x, (ast.Assign, ast.AugAssign, ast.Pass)):
+                continue
+            if isinstance(x, ast.Expr):
+                continue
+            if isinstance(x, ast.If) and self._mergeable(x.body) and self._mergeable(x.orelse):
+                continue
+            return False
+        return True
+
+    def _merge_states(self, c, a, b):
+        """join two straight-line branch states: value = If(c, then, else); returns None if the states cannot be joined"""
+        out = a.fork()
+        for k in set(a.env) | set(b.env):
+            if k not in a.env or k not in b.env:
+                # defined on one side only: keep it (reading it on the other path would be a NameError in Python as well)
+                out.env[k] = a.env.get(k, b.env.get(k))
+                if k not in a.env or k not in b.env:
+                    va = a.env.get(k, b.env.get(k))
+                    if not isinstance(va, StrV) and not k.startswith("__"):
+                        return None
+                continue
+            va, vb = a.env[k], b.env[k]
+            if va is vb:
+                continue
+            if isinstance(va, StrV) and isinstance(vb, StrV):
+                out.env[k] = va if va.s == vb.s else StrV("<str>")
+                continue
+            if isinstance(va, ARef) and isinstance(vb, ARef) and va.sid == vb.sid:
+                continue
+            la, lb = lit(va), lit(vb)
+            if is_z3(la) and is_z3(lb):
+                if la.eq(lb):
+                    continue
+                la, lb = coerce(la, lb)
+                out.env[k] = z3.If(c, la, lb)
+                continue
+            if isinstance(va, dict) and isinstance(vb, dict):
+                continue
+            return None
+        for sid in set(a.heap) | set(b.heap):
+            ha, hb = a.heap.get(sid), b.heap.get(sid)
+            if ha is None or hb is None:
+                out.heap[sid] = ha if ha is not None else hb
+                continue
+            if ha is hb:
+                continue
+            if isinstance(ha, ArrData) and isinstance(hb, ArrData):
+                if len(ha.shape) != len(hb.shape) or any(not z3.eq(z3.simplify(x), z3.simplify(y)) for x, y in zip(ha.shape, hb.shape)) or ha.elem != hb.elem:
+                    return None
+                out.heap[sid] = ha if ha.data.eq(hb.data) else ArrData(ha.shape, z3.If(c, ha.data, hb.data), ha.elem, ha.owner, ha.view_of)
+                continue
+            if isinstance(ha, ObjData) and isinstance(hb, ObjData):
+                fields = {}
+                for fk in set(ha.fields) | set(hb.fields):
+                    fa, fb = ha.fields.get(fk), hb.fields.get(fk)
+                    if fa is fb:
+                        fields[fk] = fa
+                    elif fa is not None and fb is not None and is_z3(lit(fa)) and is_z3(lit(fb)):
+                        x, y = coerce(fa, fb)
+                        fields[fk] = z3.If(c, x, y)
+                    elif isinstance(fa, ARef) and isinstance(fb, ARef) and fa.sid == fb.sid:
+                        fields[fk] = fa
+                    else:
+                        return None
+                out.heap[sid] = ObjData(ha.cls, fields, ha.owner)
+                continue
+            if isinstance(ha, ListData) and isinstance(hb, ListData) and len(ha.items) == len(hb.items) and all(x is y for x, y in zip(ha.items, hb.items)):
+                continue
+            return None
+        # path condition: common prefix, then the branch-specific facts guarded by the condition
+        n0 = 0
+        while n0 < len(a.pc) and n0 < len(b.pc) and a.pc[n0] is b.pc[n0]:
+            n0 += 1
+        out.pc = list(a.pc[:n0])
+        for f in a.pc[n0:]:
+            if not f.eq(c):
+                out.pc.append(z3.Implies(c, f))
+        for f in b.pc[n0:]:
+            if not (z3.is_not(f) and f.arg(0).eq(c)):
+                out.pc.append(z3.Implies(z3.Not(c), f))
+        out.writes = list(a.writes) + [w for w in b.writes if w not in a.writes]
+        return out
+
     def st_If(self, n, st):
         c = z3.simplify(truth(self.ev(n.test, st)))
         if z3.is_true(c):
             return self.run(n.body, st)
         if z3.is_false(c):
             return self.run(n.orelse, st)
+        if self._mergeable(n.body) and self._mergeable(n.orelse):
+            a, b = st.fork(), st.fork()
+            a.pc.append(c)
+            b.pc.append(z3.Not(c))
+            nret = len(self.returns)
+            ra, rb = self.run(n.body, a), self.run(n.orelse, b)
+            if len(ra) == 1 and len(rb) == 1 and len(self.returns) == nret and ra[0].flag is None and rb[0].flag is None:
+                m = self._merge_states(c, ra[0], rb[0])
+                if m is not None:
+                    self.cover.append((f"branch-true@{n.lineno}", list(a.pc[:len(st.pc) + 1])))
+                    self.cover.append((f"branch-false@{n.lineno}", list(b.pc[:len(st.pc) + 1])))
+                    return [m]
+            # not joinable: fall back to path splitting (obligations emitted in the trial run stay valid: they were
+            # generated under the respective branch condition)
+            return ra + rb
         a, b = st.fork(), st.fork()
         a.pc.append(c)
         b.pc.append(z3.Not(c))
